@@ -189,7 +189,7 @@ theorem Obj.derivSpline_curve {o o' : Obj K} {b : Basis K} (hb : o.bases = #[b])
     (hc0 : b.kn (b.order - 1) = b.kn 0) (hcN : b.kn (b.nAll + b.order - 1) = b.kn b.nAll)
     {nc : ℕ} (hs : o.cps.shape = [b.numFunctions, nc]) (hr : o.rational = false) {tol : K}
     (htol : 0 < tol) (h : o.getDerivativeSpline tol 0 = .ok o') {us : List K}
-    (hus : ∀ u ∈ us, b.Admissible tol u) :
+    (hus : ∀ u ∈ us, b.Admissible tol u) (hne : us ≠ []) :
     ∃ rv rd, o'.evaluate tol [us] true = .ok rv ∧
       o.derivativeGeneric tol [us] [1] [true] true = .ok rd ∧
       ∀ i c, i < us.length → c < nc → rv.get (i * nc + c) = rd.get (i * nc + c) := by
@@ -208,8 +208,9 @@ theorem Obj.derivSpline_curve {o o' : Obj K} {b : Basis K} (hb : o.bases = #[b])
     rw [hcps, applyAxis_shape, hs, hCsz, hnbf]; rfl
   have hus' : ∀ u ∈ us, nb.Admissible tol u := fun u hu => hD.admissible hv hper hp (hus u hu)
   obtain ⟨rv, hrv, -, -, hgetv⟩ := Obj.evaluate1_spec_nonrational hb' hvnb hs' hr' htol hus'
+    (fun _ => hne)
   obtain ⟨rd, hrd, hgetd⟩ := Obj.derivative1_nonrational hb hs hr tol us 1 true true
-    (Obj.not_outOfDomain1 hb hv htol hus)
+    (Obj.not_outOfDomain1 hb hv htol hus (fun _ => hne))
   refine ⟨rv, rd, hrv, hrd, ?_⟩
   intro i c hi hc
   have hu := hus _ (getD_mem_of_lt us hi 0)
@@ -241,7 +242,8 @@ theorem Obj.derivSpline_surface_u {o o' : Obj K} {b1 b2 : Basis K} (hb : o.bases
     (hc0 : b1.kn (b1.order - 1) = b1.kn 0) (hcN : b1.kn (b1.nAll + b1.order - 1) = b1.kn b1.nAll)
     {nc : ℕ} (hs : o.cps.shape = [b1.numFunctions, b2.numFunctions, nc]) (hr : o.rational = false)
     {tol : K} (htol : 0 < tol) (h : o.getDerivativeSpline tol 0 = .ok o') {us vs : List K}
-    (hus : ∀ u ∈ us, b1.Admissible tol u) (hvs : ∀ v ∈ vs, b2.Admissible tol v) :
+    (hus : ∀ u ∈ us, b1.Admissible tol u) (hvs : ∀ v ∈ vs, b2.Admissible tol v)
+    (hne1 : us ≠ []) (hne2 : b2.periodic < 0 → vs ≠ []) :
     ∃ rv rd, o'.evaluate tol [us, vs] true = .ok rv ∧
       o.derivativeGeneric tol [us, vs] [1, 0] [true, true] true = .ok rd ∧
       ∀ i1 i2 c, i1 < us.length → i2 < vs.length → c < nc →
@@ -261,8 +263,9 @@ theorem Obj.derivSpline_surface_u {o o' : Obj K} {b1 b2 : Basis K} (hb : o.bases
     rw [hcps, applyAxis_shape, hs, hCsz, hnbf]; rfl
   have hus' : ∀ u ∈ us, nb.Admissible tol u := fun u hu => hD.admissible hv1 hper hp (hus u hu)
   obtain ⟨rv, hrv, -, -, hgetv⟩ := Obj.evaluate2_spec_nonrational hb' hvnb hv2 hs' hr' htol hus' hvs
+    (fun _ => hne1) hne2
   obtain ⟨rd, hrd, hgetd⟩ := Obj.derivative2_nonrational_grid hb hs hr tol us vs 1 0 true true
-    (Obj.not_outOfDomain2 hb hv1 hv2 htol hus hvs)
+    (Obj.not_outOfDomain2 hb hv1 hv2 htol hus hvs (fun _ => hne1) hne2)
   refine ⟨rv, rd, hrv, hrd, ?_⟩
   intro i1 i2 c h1 h2 hc
   have hu := hus _ (getD_mem_of_lt us h1 0)
@@ -332,7 +335,8 @@ theorem Obj.derivSpline_surface_v {o o' : Obj K} {b1 b2 : Basis K} (hb : o.bases
     (hc0 : b2.kn (b2.order - 1) = b2.kn 0) (hcN : b2.kn (b2.nAll + b2.order - 1) = b2.kn b2.nAll)
     {nc : ℕ} (hs : o.cps.shape = [b1.numFunctions, b2.numFunctions, nc]) (hr : o.rational = false)
     {tol : K} (htol : 0 < tol) (h : o.getDerivativeSpline tol 1 = .ok o') {us vs : List K}
-    (hus : ∀ u ∈ us, b1.Admissible tol u) (hvs : ∀ v ∈ vs, b2.Admissible tol v) :
+    (hus : ∀ u ∈ us, b1.Admissible tol u) (hvs : ∀ v ∈ vs, b2.Admissible tol v)
+    (hne1 : b1.periodic < 0 → us ≠ []) (hne2 : vs ≠ []) :
     ∃ rv rd, o'.evaluate tol [us, vs] true = .ok rv ∧
       o.derivativeGeneric tol [us, vs] [0, 1] [true, true] true = .ok rd ∧
       ∀ i1 i2 c, i1 < us.length → i2 < vs.length → c < nc →
@@ -352,8 +356,9 @@ theorem Obj.derivSpline_surface_v {o o' : Obj K} {b1 b2 : Basis K} (hb : o.bases
     rw [hcps, applyAxis_shape, hs, hCsz, hnbf]; rfl
   have hvs' : ∀ v ∈ vs, nb.Admissible tol v := fun v hv => hD.admissible hv2 hper hp (hvs v hv)
   obtain ⟨rv, hrv, -, -, hgetv⟩ := Obj.evaluate2_spec_nonrational hb' hv1 hvnb hs' hr' htol hus hvs'
+    hne1 (fun _ => hne2)
   obtain ⟨rd, hrd, hgetd⟩ := Obj.derivative2_nonrational_grid hb hs hr tol us vs 0 1 true true
-    (Obj.not_outOfDomain2 hb hv1 hv2 htol hus hvs)
+    (Obj.not_outOfDomain2 hb hv1 hv2 htol hus hvs hne1 (fun _ => hne2))
   refine ⟨rv, rd, hrv, hrd, ?_⟩
   intro i1 i2 c h1 h2 hc
   have hu := hus _ (getD_mem_of_lt us h1 0)
